@@ -11,6 +11,8 @@ Template language (lines starting with `//@`):
 Keys: requires / ensures / decreases / prologue / ret <name> / attr <text> /
       loop <n> invariant|decreases|ensures|invariant_except_break <text> /
       subst `old` => `new` [xN]       (R6/R8 rewrites: must match exactly N (default 1) times)
+      substw ...                      (same, whitespace-insensitive)
+      rename `path` => `name`         (R2: module-path flattening, every occurrence)
       insert_after `anchor` => `text` / insert_before `anchor` => `text`   (ghost insertions)
       drop `text`                    (R7: compile-time-only macro statements)
       noextract-body                 (keep signature, body replaced: item is left external_body)
@@ -46,8 +48,22 @@ class Block:
         self.directives = []   # (key, text)
 
 
+def expand_includes(text):
+    """`//@ include <file>`: splice another template fragment (relative to verus/units)."""
+    out = []
+    for line in text.splitlines():
+        st = line.strip()
+        if st.startswith("//@ include "):
+            inc = os.path.join(UNITS, st[len("//@ include "):].strip())
+            out.append(expand_includes(open(inc).read()))
+        else:
+            out.append(line)
+    return "\n".join(out) + "\n"
+
+
 def parse_template(text):
     """Returns list of ('text', str) | ('block', Block)."""
+    text = expand_includes(text)
     out = []
     cur = None
     buf = []
@@ -229,6 +245,21 @@ def process_fn(text, block, applied, canary=False):
                 raise R.LostAnchor("%s: subst %r expected %d occurrence(s), found %d" % (block.path, old, n, text.count(old)))
             text = text.replace(old, new)
             applied.add("R6/R8 subst `%s` => `%s`" % (old, new))
+        elif key == "rename":
+            # R2: module-path flattening / disambiguation of an item name - every occurrence, any count
+            old, new, _n = _take_backticked(val)
+            if old in text:
+                text = text.replace(old, new)
+                applied.add("R2 path `%s` written as `%s`" % (old, new))
+        elif key == "substw":
+            # like subst, but whitespace-insensitive (runs of whitespace in the pattern match any whitespace)
+            old, new, n = _take_backticked(val)
+            rx = re.compile(r"\s*".join(re.escape(tok) for tok in re.findall(r"\w+|[^\w\s]", old)))
+            found = rx.findall(text)
+            if len(found) != n:
+                raise R.LostAnchor("%s: substw %r expected %d occurrence(s), found %d" % (block.path, old, n, len(found)))
+            text = rx.sub(lambda m: new, text)
+            applied.add("R6/R8 subst (whitespace-insensitive) `%s` => `%s`" % (" ".join(old.split()), " ".join(new.split())))
         elif key == "drop":
             old, _, n = _take_backticked(val)
             if text.count(old) != n:
@@ -343,6 +374,11 @@ def process_other(text, lead, block, applied):
                 raise R.LostAnchor("%s: subst %r expected %d, found %d" % (block.path, old, n, text.count(old)))
             text = text.replace(old, new)
             applied.add("R6/R8 subst `%s` => `%s`" % (old, new))
+        elif key == "rename":
+            old, new, _n = _take_backticked(val)
+            if old in text:
+                text = text.replace(old, new)
+                applied.add("R2 path `%s` written as `%s`" % (old, new))
     derives = []
     dm = re.search(r"#\[derive\(([^)]*)\)\]", lead)
     if dm:
